@@ -230,7 +230,7 @@ def front_end_shape(item):
 def run(ctx):
     rng = random.Random(ctx["seed"] * 5323 + 10)
     quick = ctx["tier"] == "quick"
-    progs = list(pygen.HAND) + [p for p in pygen.corpus_programs() if p not in pygen.HAND] + [pygen.gen_program(rng, rng.randint(3, 11), depth=rng.choice([2, 3, 4])) for _ in range(300 if quick else 6000)]
+    progs = list(pygen.HAND) + [p for p in pygen.corpus_programs() if p not in pygen.HAND] + [pygen.gen_program(rng, rng.randint(3, 11), depth=rng.choice([2, 3, 4])) for _ in range(300 * common.boost() if quick else 6000)]
     graphs = [s for _, s in gen.graph_inputs(ctx["tier"], ctx["seed"]) if len(s) <= 16]
     if quick:
         graphs = graphs[::3]
